@@ -34,7 +34,7 @@ func (c17) NumCases(tier string) int      { return tierN(tier, 3000, 600000) }
 func (c17) MinNontrivial(tier string) int { return tierN(tier, 300, 2000) }
 
 var hostileStrings = []string{"hello", "007", "1.10", "+5", "-3", "1e3", "TRUE", "false", "True", "'x'", "\"x\"", "[a,b]", "[]", "{}", "map[a:b]",
-	"", "a b", "a:b", "v1.10", " lead", "trail ", "null", "~", "0x1F", "1,5", "a,b", "#tag", "x=y", "10.0", "9007199254740993", "é√"}
+	"", "a b", "a:b", "v1.10", " lead", "trail ", "null", "~", "0x1F", "1,5", "a,b", "#tag", "x=y", "10.0", "9007199254740993", "é√", "line1\nline2\n", "keep\n\n"}
 
 var bigInts = []int64{0, 1, -1, 42, 1 << 31, (1 << 53) + 1, math.MaxInt64, math.MinInt64, -(1 << 53) - 1, 1234567890123456789}
 
@@ -318,7 +318,7 @@ func (p c17) Run(c *core.Ctx) {
 		return
 	}
 	v := genValue(c)
-	docTree := map[string]any{"cfg": map[string]any{"k": v.v, "other": "x"}}
+	docTree := map[string]any{"cfg": map[string]any{"k": v.v, "a-other": "x"}} // (k is the document's last node)
 	b, err := yaml.Marshal(docTree)
 	if err != nil {
 		c.Fail("", "HARNESS: yaml marshal: "+err.Error(), nil)
